@@ -76,7 +76,7 @@ func (f *Findings) match(prop, obl string) []*Finding {
 }
 
 // classTerm evaluates the disjunction of the findings' input classes in the entry state of the unit.
-func (g *GenUnit) classTerm(fds []*Finding) (t *Term, err error) {
+func (g *GenUnit) classTerm(fds []*Finding, o *Obligation) (t *Term, err error) {
 	defer func() {
 		if r := recover(); r != nil {
 			err = fmt.Errorf("%v", r)
@@ -86,6 +86,11 @@ func (g *GenUnit) classTerm(fds []*Finding) (t *Term, err error) {
 	env := &SpecEnv{e: e, fr: e.entryFrame, st: e.entry, bound: map[string]SV{}, cs: e.cs, pkg: e.pkg}
 	for k, v := range g.ClassBound {
 		env.bound[k] = v
+	}
+	if o != nil && o.Env != nil {
+		cp := *o.Env
+		env = &cp
+		env.expandFn = false
 	}
 	var alts []*Term
 	for _, f := range fds {
